@@ -150,8 +150,15 @@ MiscCmds(g) ==
                \cup {[name |-> "show", mode |-> "json", id |-> i] : i \in IdArgs(g)}
           ELSE {})
 
-Alphabet(g) == NewTaskCmds(g) \cup NewEpicCmds(g) \cup SetCmds(g) \cup ResultCmds(g)
+Alphabet0(g) == NewTaskCmds(g) \cup NewEpicCmds(g) \cup SetCmds(g) \cup ResultCmds(g)
                \cup ClaimCmds(g) \cup SeqCmds(g) \cup MiscCmds(g)
+\* "trailing": the JSON document of a stdin command is followed by something
+TrailCmds(g) ==
+  IF "trailing" \notin Extras THEN {}
+  ELSE {("trail" :> t) @@ c : t \in TrailForms,
+          c \in {x \in Alphabet0(g) : x.mode = "json" /\ x.name \in {"new_task", "new_epic", "set", "plan"}
+                                       /\ (x.name = "plan" => PlanValid(x.doc))}}
+Alphabet(g) == Alphabet0(g) \cup TrailCmds(g)
 
 (***************************************************************************)
 (* Behaviour.                                                              *)
@@ -248,7 +255,7 @@ Obs == [pre     |-> View(Replay(last'.logpre)),
         logpre  |-> last'.logpre,
         logpost |-> log',
         gone    |-> last'.gonepre,
-        readable |-> TRUE, listshow |-> TRUE, faithful |-> TRUE,
+        readable |-> TRUE, listshow |-> TRUE, faithful |-> TRUE, hidden |-> <<>>,
         out     |-> [json |-> TRUE, values |-> 1, trailing |-> FALSE, stderr |-> last'.exit # 0,
                      idshape |-> TRUE]]
 
@@ -269,7 +276,7 @@ P_C09 == [][/\ Holds(Props!C09_exact) /\ Holds(Props!C09_dryrun) /\ Holds(Props!
 P_C10 == [][Holds(Props!C10_unchanged)]_vars
 P_C11 == [][Holds(Props!C11_invalid_refused) /\ Holds(Props!C11_adds_exactly) /\ Holds(Props!C11_preserves)]_vars
 P_C12 == [][Holds(Props!C12_function_of_log) /\ Holds(Props!C12_reads_pure) /\ Holds(Props!C12_history_grows)]_vars
-P_C14 == [][Holds(Props!C14_ref) /\ Holds(Props!C14_epics_flat) /\ Holds(Props!C14_bad_refused)
+P_C14 == [][Holds(Props!C14_ref) /\ Holds(Props!C14_visible) /\ Holds(Props!C14_epics_flat) /\ Holds(Props!C14_bad_refused)
             /\ Holds(Props!C14_compact_keeps)]_vars
 P_C15 == [][Holds(Props!C15_progress) /\ Holds(Props!C15_waits) /\ Holds(Props!C15_claim)]_vars
 P_C16 == [][Holds(Props!C16_one_value) /\ Holds(Props!C16_truth) /\ Holds(Props!C16_reads)]_vars
